@@ -98,10 +98,11 @@ def run(ctx):
     # ("PAR 2.0\0UniFileN": file id + UTF-16 name), which gopar ignores - a reader that honoured it must check that name too ----
     for name in ("../x", "sub/../../x", "/abs", "a/../../x"):
         pos = 0
-        for variant in ("zero-length", "unifilen"):
+        for variant in ("zero-length", "zero-length-no-ifsc", "unifilen"):
             try:
-                if variant == "zero-length":
-                    ms = R.MutSet(good, S, decl={good[pos][0]: {"name": name, "len": 0, "pairs": []}})
+                if variant.startswith("zero-length"):
+                    ms = R.MutSet(good, S, decl={good[pos][0]: {"name": name, "len": 0, "pairs": [], "hash": W.md5(b""), "h16": W.md5(b""),
+                                                                "no_ifsc": variant.endswith("no-ifsc")}})
                     arc = R.archive(ms, [0, 1, 2, 3])
                 else:
                     ms = R.MutSet(good, S)
@@ -116,6 +117,9 @@ def run(ctx):
             for k in range(1, 7):
                 fs["/" + "/".join(DEEP.split("/")[1:k]) + ("/" if k > 1 else "") + "canary%d.txt" % k] = b"canary %d" % k
             fs["/c/a/x"] = b"do not touch"
+            for q_, (n_, d_) in enumerate(good):
+                if q_ != pos:
+                    fs[DEEP + "/" + n_] = d_            # the other files are intact: nothing else needs reconstruction
             cases.append({"fmt": "par2", "name": "%s (%s)" % (name, variant), "pos": pos, "fs": fs,
                           "vline": L.line_verify("p2", "real", DEEP + "/arc.par2", 1, fs, dirs=[DEEP, DEEP + "/sub"]),
                           "rline": L.line_repair("p2", "real", DEEP + "/arc.par2", False, 1, fs, dirs=[DEEP, DEEP + "/sub"])})
